@@ -4,6 +4,7 @@ import (
 	"fmt"
 	"strconv"
 	"strings"
+	"sync"
 	"testing"
 	"time"
 
@@ -20,12 +21,13 @@ type C20Case struct {
 	TwoStep  bool  `json:"two_step"`  // RequestTermination + WaitForTermination instead of Close
 	Second   bool  `json:"second"`    // a second emulator instance is alive at the same time
 	KillKind int   `json:"kill_kind"` // which CLIENT KILL filter the first instance issues while the second is alive
+	Storm    int   `json:"storm"`     // goroutines that keep opening new connections while the emulator terminates
 }
 
 var c20StateNames = []string{"idle", "pipeline-unread", "inside-MULTI", "blocked-BLPOP", "blocked-BLMOVE", "mid-frame", "big-replies-unread"}
 
 func c20Gen(t *rapid.T) C20Case {
-	c := C20Case{Cycles: rapid.IntRange(1, 3).Draw(t, "cycles"), TwoStep: rapid.Bool().Draw(t, "twostep"), Second: rapid.IntRange(0, 2).Draw(t, "second") == 0, KillKind: rapid.IntRange(0, 3).Draw(t, "kill")}
+	c := C20Case{Cycles: rapid.IntRange(1, 3).Draw(t, "cycles"), TwoStep: rapid.Bool().Draw(t, "twostep"), Second: rapid.IntRange(0, 2).Draw(t, "second") == 0, KillKind: rapid.IntRange(0, 3).Draw(t, "kill"), Storm: pick(t, "storm", 0, 0, 1, 4, 8)}
 	for n := rapid.IntRange(0, 6).Draw(t, "conns"); n > 0; n-- {
 		c.States = append(c.States, weighted(t, "state", []int{4, 3, 3, 3, 3, 3, 1}))
 	}
@@ -114,6 +116,39 @@ func c20Run(c C20Case, st *kit.Stats) error {
 		}
 		admin.Close()
 
+		// clients that are connecting at the very moment of termination
+		var stormMu sync.Mutex
+		var stormConns []*kit.Conn
+		stormStop := make(chan struct{})
+		var stormWg sync.WaitGroup
+		for g := 0; g < c.Storm; g++ {
+			stormWg.Add(1)
+			go func() {
+				defer stormWg.Done()
+				for n := 0; n < 80; n++ { // bounded: every connection costs an ephemeral port for a minute
+					select {
+					case <-stormStop:
+						return
+					default:
+					}
+					time.Sleep(40 * time.Microsecond)
+					cn, err := kit.Dial(emu.Addr)
+					if err != nil {
+						time.Sleep(50 * time.Microsecond)
+						continue
+					}
+					cn.Proto = 0
+					stormMu.Lock()
+					stormConns = append(stormConns, cn)
+					stormMu.Unlock()
+				}
+			}()
+		}
+		if c.Storm > 0 {
+			time.Sleep(time.Millisecond)
+			st.Class("connections-arriving-during-termination")
+		}
+
 		// terminate
 		done := make(chan struct{})
 		t0 := time.Now()
@@ -129,7 +164,35 @@ func c20Run(c C20Case, st *kit.Stats) error {
 		select {
 		case <-done:
 		case <-time.After(c20Bound):
-			return fmt.Errorf("cycle %d: termination did not return within %v with client states %v", cycle, c20Bound, stateNames(c.States))
+			close(stormStop)
+			return fmt.Errorf("cycle %d: termination did not return within %v with client states %v and %d goroutines opening connections", cycle, c20Bound, stateNames(c.States), c.Storm)
+		}
+		time.Sleep(200 * time.Microsecond)
+		close(stormStop)
+		stormWg.Wait()
+		st.ClassN("connections-opened-during-termination", len(stormConns))
+		if len(stormConns) > 0 {
+			// whichever of them got connected: none may be served now that termination has returned
+			served := make(chan string, len(stormConns))
+			var cw sync.WaitGroup
+			for i, cn := range stormConns {
+				cw.Add(1)
+				go func(i int, cn *kit.Conn) {
+					defer cw.Done()
+					nonce := fmt.Sprintf("storm-%d-%d", cycle, i)
+					cn.Write(append(kit.EncodeCmd("SET", "written-after-close", nonce), kit.EncodeCmd("ECHO", nonce)...))
+					raw := string(cn.Drain(150 * time.Millisecond))
+					cn.Close()
+					if strings.Contains(raw, nonce) {
+						served <- nonce
+					}
+				}(i, cn)
+			}
+			cw.Wait()
+			close(served)
+			if n, ok := <-served; ok {
+				return fmt.Errorf("cycle %d: a connection opened while the emulator was terminating (one of %d) is still served after termination returned: it got the reply to ECHO %s", cycle, len(stormConns), n)
+			}
 		}
 		st.Class(fmt.Sprintf("terminated-in-under-%s", bucket(time.Since(t0))))
 
